@@ -18,7 +18,8 @@ from common import *
 import c12_html
 import c12_report2coq
 
-COQ_FILES = ['C12/TextLib.v', 'Gen/C12MerchantId.v', 'Gen/C12Embed.v', 'C12/Model.v', 'C12/Proofs.v', 'C12/Props.v']
+COQ_FILES = ['Lib/Str.v', 'Lib/NumOps.v', 'Gen/ClassificationPy.v', 'C06/Model.v', 'C06/Proofs.v',
+             'C12/TextLib.v', 'Gen/C12MerchantId.v', 'Gen/C12Embed.v', 'C12/Model.v', 'C12/Proofs.v', 'C12/Classify.v', 'C12/Props.v']
 IMPL = os.path.join(os.path.dirname(os.path.abspath(__file__)), 'impl_c12.py')
 WORKDIR = os.path.join(WORK, 'C12_render')
 PH = ['/* CSS_PLACEHOLDER */', '/* DATA_PLACEHOLDER */', '/* JS_PLACEHOLDER */']
@@ -27,6 +28,14 @@ HP_CLOSE_RE = re.compile(r'</\s*script\s*>', re.I | re.A)
 
 
 def regen_gen():
+    fails = []
+    try:
+        import c13
+        fails += [f for f in c13.translate_classification(None) if f['translator'] == 'py2coq']   # Gen/ClassificationPy.v
+    except Exception as e:  # noqa
+        fails.append({'translator': 'py2coq', 'error': repr(e)})
+    if fails:
+        return fails
     try:
         for rel, txt in c12_report2coq.translate(SRC).items():
             regen(rel, txt)
@@ -240,8 +249,8 @@ def gen_cases(seed, n):
     def many(name, n, c='Transit', s='Fares'):
         return [T(name, f'FARE {i:05d}', 176 + 16 * (i % 7), c=c, s=s, date=f'2025-{1 + i % 12:02d}-{1 + i % 28:02d}') for i in range(n)]
     for nsz in (25, 26, 51, 100, 101, 129, 201, 256, 257, 501, 513, 1000, 1001, 1025, 2001, 2049, 4097, 5001):
-        cases.append(case(many('Transit', nsz) + [T('Books', 'b', 1280, c='Fun', s='Books')],
-                          views=VIEWSETS[2] if nsz % 2 else None))
+        cases.append(dict(case(many('Transit', nsz) + [T('Books', 'b', 1280, c='Fun', s='Books')],
+                               views=VIEWSETS[2] if nsz % 2 else None), size_case=True))
     # many merchants in one category / one view, many categories, many views, many tags, a long description
     cases.append(case([T(f'M{i:04d}', 'p', 64 + i, c='Food', s='Grocery') for i in range(1001)], views=VIEWSETS[2]))
     cases.append(case([T(f'M{i:04d}', 'p', 64 + i, c=f'Cat{i:03d}', s=f'Sub{i:03d}') for i in range(257)]))
@@ -713,7 +722,13 @@ Definition chk_embed (c : text * text * text * text * text * text * list text * 
   text_eqb (data_script j) ds && text_eqb (embed tpl css js j) doc && leqb text_eqb (scan MData [] doc) scr
   && oeqb text_eqb (extract_script doc) ext.
 (* category view and sections *)
-Definition X (a : Z) (tg : list text) : txn := {| t_desc := []; t_amount := a; t_month := []; t_tags := tg; t_source := []; t_extra := [] |}.
+Definition X (a : Z) (tg : list text) (d mo src : text) (ex : list (text * text)) : txn :=
+  {| t_desc := d; t_amount := a; t_month := mo; t_tags := tg; t_source := src; t_extra := ex |}.
+(* the rows embedded under a merchant: id, description, amount, month, tags, source, extra fields (value = its JSON text) *)
+Definition row_sum (p : text * txn) :=
+  (fst p, (t_desc (snd p), (t_amount (snd p), (t_month (snd p), (t_tags (snd p), (t_source (snd p), t_extra (snd p))))))).
+Definition row_eqb := peqb text_eqb (peqb text_eqb (peqb Z.eqb (peqb text_eqb (peqb (leqb text_eqb) (peqb text_eqb (leqb (peqb text_eqb text_eqb))))))).
+Definition rows_of (l : list (text * jmerchant)) := map (fun p => map row_sum (embedded_txns (snd p))) l.
 Definition M (n c s : text) (t k : Z) (xs : list txn) : merchant := {| m_name := n; m_cat := c; m_sub := s; m_total := t; m_count := k; m_txns := xs |}.
 Definition tt_eqb := peqb Z.eqb (peqb Z.eqb (peqb Z.eqb Z.eqb)).
 Definition sub_sum (s : subcat) := (s_name s, (s_total s, (s_count s, map (fun p => (fst p, j_name (snd p))) (s_merchants s)))).
@@ -723,12 +738,16 @@ Definition sub_eqb := peqb text_eqb (peqb Z.eqb (peqb Z.eqb ids_eqb)).
 Definition cat_eqb := peqb text_eqb (peqb Z.eqb (peqb Z.eqb (leqb sub_eqb))).
 Definition sec_sum (p : text * jsection) := (fst p, (sec_title (snd p), map (fun q => (fst q, j_name (snd q))) (sec_merchants (snd p)))).
 Definition sec_eqb := peqb text_eqb (peqb text_eqb ids_eqb).
-Definition chk_view (c : list merchant * list (text * (Z * (Z * list (text * (Z * (Z * list (text * text)))))))
+Definition row_t := (text * (text * (Z * (text * (list text * (text * list (text * text)))))))%type.
+Definition view_case := (list merchant * list (text * (Z * (Z * list (text * (Z * (Z * list (text * text)))))))
                         * list (text * list merchant) * list (text * (text * list (text * text)))
-                        * list (Z * (Z * (Z * Z)))) : bool :=
-  let '(ms, cv, views, secs, tts) := c in
+                        * list (Z * (Z * (Z * Z))) * list (list row_t) * list (list row_t))%type.
+Definition chk_view (c : view_case) : bool :=
+  let '(ms, cv, views, secs, tts, rows, srows) := c in
   leqb cat_eqb (map cat_sum (category_view ms)) cv && leqb sec_eqb (map sec_sum (sections_view views)) secs
-  && leqb tt_eqb (map type_totals (category_view ms)) tts.
+  && leqb tt_eqb (map type_totals (category_view ms)) tts
+  && leqb (leqb row_eqb) (rows_of (view_pairs (category_view ms))) rows
+  && leqb (leqb row_eqb) (rows_of (flat_map (fun p => sec_merchants (snd p)) (sections_view views))) srows.
 (* export_json figures *)
 Definition chk_figs (c : astats * list (option Z)) : bool :=
   leqb (oeqb Z.eqb) (map (json_fig (fst c)) [FIncome; FSpending; FCredits; FCashFlow; FTransfersNet]) (snd c).
@@ -782,13 +801,35 @@ def model_check(cases, results, strings_io, facts, tier):
             else:
                 skipped['section_name_non_ascii_case'] += 1
         # category view
-        if len(views) < (400 if tier == 'quick' else 4000) and all(m['total_ticks'] is not None for m in st['by_merchant']):
+        n_tx = len(c['txns'])
+        take = (len(views) < (400 if tier == 'quick' else 4000) and n_tx <= 60) or \
+               (c.get('size_case') and n_tx <= (130 if tier == 'quick' else 1100))
+        if take and all(m['total_ticks'] is not None for m in st['by_merchant']):
             ok = True
             if any(t['amount_ticks'] is None for m in st['by_merchant'] for t in m['transactions']):
                 ok = False
 
+            def cextra(e):
+                return clist(f"({ctext(k)}, {ctext(json.dumps(v))})" for k, v in (e or {}).items())
+
+            def crow(t):
+                a = t['amount'] * 64
+                return None if not float(a).is_integer() else (
+                    f"({ctext(t['id'])}, ({ctext(t['description'])}, ({cz(int(a))}, ({ctext(t['month'])}, ({clist(ctext(g) for g in t['tags'])}, "
+                    f"({ctext(t['source'])}, {cextra(t.get('extra_fields'))}))))))")
+
+            def crows(mobjs):
+                out = []
+                for mo in mobjs:
+                    rs = [crow(t) for t in mo['transactions']]
+                    if any(x is None for x in rs):
+                        return None
+                    out.append(clist(rs))
+                return clist(out)
+
             def mterm(m):
-                xs = clist(f"X {cz(t['amount_ticks'] or 0)} {clist(ctext(g) for g in t['tags'])}" for t in m['transactions'])
+                xs = clist(f"X {cz(t['amount_ticks'] or 0)} {clist(ctext(g) for g in t['tags'])} {ctext(t['description'])} {ctext(t['month'])} "
+                           f"{ctext(t['source'])} {cextra(t['extra_fields'])}" for t in m['transactions'])
                 return f"M {ctext(m['name'])} {ctext(m['category'])} {ctext(m['subcategory'])} {cz(m['total_ticks'])} {cz(m['count'])} {xs}"
             ms = [mterm(m) for m in st['by_merchant']]
             cv, tts = [], []
@@ -818,14 +859,14 @@ def model_check(cases, results, strings_io, facts, tier):
                     ok = False
                 bm = {m['name']: m for m in st['by_merchant']}
                 for s in st['sections']:
-                    vs.append(f"({ctext(s['name'])}, " + clist(
-                        f"M {ctext(n)} {ctext(bm[n]['category'])} {ctext(bm[n]['subcategory'])} {cz(bm[n]['total_ticks'])} {cz(bm[n]['count'])} []"
-                        for n in s['merchants']) + ')')
+                    vs.append(f"({ctext(s['name'])}, " + clist(mterm(bm[n]) for n in s['merchants']) + ')')
                 for sid, sec in data['sections'].items():
                     secs.append(f"({ctext(sid)}, ({ctext(sec['title'])}, "
                                 + clist(f"({ctext(k)}, {ctext(m['displayName'])})" for k, m in sec['merchants'].items()) + '))')
-            if ok:
-                views.append((ci, f"({clist(ms)}, {clist(cv)}, {clist(vs)}, {clist(secs)}, {clist(tts)})"))
+            rows = crows(view_merchants(data['categoryView'])) if ok else None
+            srows = crows([m for sec in data['sections'].values() for m in sec['merchants'].values()]) if ok else None
+            if ok and rows is not None and srows is not None:
+                views.append((ci, f"({clist(ms)}, {clist(cv)}, {clist(vs)}, {clist(secs)}, {clist(tts)}, {rows}, {srows})"))
             else:
                 skipped['inexact_ticks'] += 1
         # export_json figures (compared exactly when every figure is a multiple of 1/4)
@@ -881,7 +922,8 @@ def model_check(cases, results, strings_io, facts, tier):
     for nm, rows, chk in (('view', views, 'chk_view'), ('figs', figs, 'chk_figs'), ('embed', embeds, 'chk_embed')):
         CH = 200 if nm != 'embed' else EMBED_CH
         for off in range(0, len(rows), CH):
-            jobs[f'{nm}_{off // CH}'] = ('Definition cases := [\n' + ';\n'.join(x for _, x in rows[off:off + CH]) + '\n].\n'
+            ty = ' : list view_case' if nm == 'view' else ''
+            jobs[f'{nm}_{off // CH}'] = (f'Definition cases{ty} := [\n' + ';\n'.join(x for _, x in rows[off:off + CH]) + '\n].\n'
                                          f'Eval vm_compute in failing {chk} 0 cases.\n')
     # the real template satisfies the hypotheses of the theorems (style sheet replaced by a stub; the real
     # style sheet and script are checked below to be free of '<', placeholders and "</script")
@@ -991,7 +1033,12 @@ def main(tier):
         'str.lower is modelled for ASCII (section names with other cased letters are skipped and counted)',
         'build_section_merchants / build_category_view / export_json figure recomputation are hand-modelled and tied by correspondence; make_merchant_id, '
         'section_id, the replacement order, the data script framing and the stats-key bindings are translated from source (tools/c12_report2coq.py)',
-        'monthly averages, typeTotals, matchInfo and the human-readable explanations in the data are not compared (not named by the property)']
+        'the rows embedded under a merchant (ids "<merchant id>_<i>", description, amount, month, tags, source, extra fields as JSON text) are modelled '
+        '(Model.embedded_txns) and compared inside Coq with the decoded data for the category view and every view, including the size-boundary cases '
+        '(<= 130 rows per case in quick, <= 1100 in thorough); date and location of a row are not in the model',
+        'the typeTotals bucket table is proved equal to the translated classification.categorize_amount (C12/Classify.v, via C06 categorize_table) for ASCII tags',
+        'monthly averages, matchInfo and the human-readable explanations in the data are not compared (not named by the property); JSON is modelled for '
+        'strings only (numbers, objects and arrays of the data are decoded by json.loads in the oracle, not in Coq)']
     timing = {}
     t0 = time.time()
     tfails = regen_gen()
